@@ -16,9 +16,9 @@ mv "$DEMOFILE" /tmp/confirm.$$.demo
 go test -vet=off -count=1 ./... > /tmp/confirm.$$.suite 2>&1
 SUITE_FAILS=$(grep -E '^(FAIL|---)' /tmp/confirm.$$.suite | grep -v 'pkg/docutil' | grep -v '^FAIL$' | head -5)
 mv /tmp/confirm.$$.demo "$DEMOFILE"
-git stash push -q -- $CHANGED
+git diff -- $CHANGED > /tmp/confirm.$$.patch; git apply -R /tmp/confirm.$$.patch   # (no git stash: the stash is shared between worktrees)
 go test -vet=off -count=1 -run "^($RUNRE)\$" "$PKG" > /tmp/confirm.$$.without 2>&1; RC_WITHOUT=$?
-git stash pop -q
+git apply /tmp/confirm.$$.patch
 echo "demo with change rc=$RC_WITH (want !=0); demo without change rc=$RC_WITHOUT (want 0); suite failures with change: [${SUITE_FAILS}]"
 if [ $RC_WITH -ne 0 ] && [ $RC_WITHOUT -eq 0 ] && [ -z "$SUITE_FAILS" ]; then
   D=/verif/seeded/$NAME; mkdir -p $D
